@@ -51,6 +51,20 @@ for d in sorted(glob.glob(os.path.join(HERE, 'seeded', '*', 'patch.diff'))):
         if (got[p]['rc'] != base[p]['rc'] and got[p]['rc'] != 0) or new:
             caught[p] = {'rc': got[p]['rc'], 'new': new[:4]}
     target = meta.get('property')
+    # a change that needs a non-default configuration is looked for by the thorough tier of its own property
+    if target in props and target not in caught:
+        a2 = subprocess.run(['git', '-C', '/repo', 'apply', '--whitespace=nowarn', d])
+        try:
+            r = subprocess.run(['python3', os.path.join(HERE, 'check.py'), target, '--tier', 'thorough'], cwd=HERE, stdout=subprocess.PIPE,
+                               stderr=subprocess.STDOUT, universal_newlines=True,
+                               env=dict(os.environ, VERIF_EVIDENCE_DIR='/tmp/seed_eval_evidence/' + target + '_thorough'))
+        finally:
+            subprocess.run(['git', '-C', '/repo', 'checkout', '--', '.'])
+        det = [l.strip() for l in r.stdout.splitlines() if l.startswith('  ')]
+        base_ids = set(l.split(' at ')[0] for l in base[target]['detail'])
+        new = [l for l in det if l.split(' at ')[0] not in base_ids]
+        if new or r.returncode not in (0, base[target]['rc']):
+            caught[target] = {'rc': r.returncode, 'new': new[:4], 'tier': 'thorough'}
     results[sid] = {'target_property': target, 'caught_by': caught,
                     'caught': bool(caught), 'caught_by_target': target in caught,
                     'summary': meta.get('summary', '')[:300]}
